@@ -7,6 +7,8 @@ The accessory side is built on vf.ref (independent PDU / TLV / crypto reference)
 
 from __future__ import annotations
 
+import asyncio
+
 import struct
 
 from vf.ref import blepdu
@@ -117,6 +119,7 @@ class FakeGattClient:
         self.read_count = 0
         self.is_connected = True
         self.real_helper = False
+        self.cooperative = False
 
     def determine_fragment_size(self, additional_overhead_size: int, handle) -> int:
         if self.real_helper:
@@ -129,10 +132,14 @@ class FakeGattClient:
         return self.negotiated_size - additional_overhead_size
 
     async def write_gatt_char(self, handle, data, response=None) -> None:
+        if self.cooperative:
+            await asyncio.sleep(0)  # a radio round trip: other tasks run meanwhile
         self.write_log.append((handle, bytes(data), response))
         self.endpoints[handle].on_write(data)
 
     async def read_gatt_char(self, handle) -> bytearray:
+        if self.cooperative:
+            await asyncio.sleep(0)
         self.read_count += 1
         return bytearray(self.endpoints[handle].on_read())
 
